@@ -297,7 +297,7 @@ fn run_decrypt(only_update_in_progress_other_phase: bool) -> DecryptRun {
     }
 }
 
-//@ harness props=C15 tier=quick level=bounded timeout=300 bound="one short-header packet of fixed shape: 4-byte DCID, 2-byte packet number, 3-byte payload; all header bits, packet number, largest acked, key-set state symbolic"
+//@ harness props=C15,C06 tier=quick level=bounded timeout=300 bound="one short-header packet of fixed shape: 4-byte DCID, 2-byte packet number, 3-byte payload; all header bits, packet number, largest acked, key-set state symbolic"
 //@ fn KeySet::decrypt_packet
 //@ fn KeySet::rotate_phase
 //@ fn KeySet::set_derivation_timer
@@ -354,7 +354,7 @@ fn vq_c15_keyset_decrypt_packet() {
     kani::cover!(t.pn > 70000, "reach:packet_number_expanded");
 }
 
-//@ harness props=C15 tier=quick level=bounded timeout=300 bound="one short-header packet of fixed shape: 4-byte DCID, 2-byte packet number, 3-byte payload; all header bits, packet number, largest acked, key-set state symbolic"
+//@ harness props=C15,C06 tier=quick level=bounded timeout=300 bound="one short-header packet of fixed shape: 4-byte DCID, 2-byte packet number, 3-byte payload; all header bits, packet number, largest acked, key-set state symbolic"
 //@ fn KeySet::decrypt_packet
 #[kani::proof]
 #[kani::unwind(12)]
